@@ -227,7 +227,10 @@ def cases(tier, seed, i, n):
                     if inner[0] == 'send_text':
                         yield dict(kind='nested', outer=outer, inner=inner + [False], z=True)
         # (1c) calls made while the loop thread is inflating compressed messages from the server
-        for prog in ('loop-server-ztext-snct+sender-z', 'loop-server-zbfinal+sender-z', 'loop-server-ztext+sender-z'):
+        # ... and calls made on two threads at once (two application senders; the loop's automatic Pong next to an
+        # application send): each accepted call still writes ONE frame that unmasks to ITS caller's payload
+        for prog in ('loop-server-ztext-snct+sender-z', 'loop-server-zbfinal+sender-z', 'loop-server-ztext+sender-z',
+                     '2x2-mixed-plain', 'loop-server-ping+sender', '2x1-text-z'):
             yield dict(kind='threads', prog=prog, mode='dfs', max_runs=400 if tier == 'quick' else 4000)
             for r in range(6 if tier == 'quick' else 200):
                 yield dict(kind='threads', prog=prog, rseed=rnd.randrange(1 << 30), count=10, prob=(0.05, 0.15, 0.4)[r % 3])
@@ -316,6 +319,8 @@ def run_threads(case, acc):
         if key is None or key == 'INCONCLUSIVE':
             return key, detail, sig
         if key in ROUND_TRIP:
+            if not str(prog_.get('loop', '')).startswith('server-z'):
+                return 'payload-does-not-round-trip:calls-made-on-two-threads-at-once', detail, sig
             return 'payload-does-not-round-trip:call-made-while-the-loop-thread-receives', detail, sig
         return None, detail, sig       # anything else is C11's / C12's business
 
